@@ -412,6 +412,28 @@ def check_valid_impls(res, facts):
             rule.ok(key, "Ok iff on-curve and in-subgroup (4 worlds)", fn.loc)
 
 
+TRUNCATING = ("take_while", "take", "skip", "skip_while", "step_by", "map_while", "nth", "first", "last", "next", "split_first", "split_last", "split_at", "chunks_exact", "par_chunks_exact")
+
+
+def check_valid_whole(res, facts):
+    """Valid::batch_check decides a whole batch: an iterator adaptor that ends early or skips by position (take_while, take,
+    skip, step_by, ...) leaves elements unchecked (filter by a per-element predicate is fine: the skipped element is decided
+    by the predicate itself)."""
+    rule = res.rule("R-VALID.whole", "Valid::batch_check implementations in ark-ec / ark-ff / ark-serialize traverse the whole batch: no truncating or positional iterator adaptor", 20)
+    for crate in ("ark_ec", "ark_ff", "ark_serialize"):
+        allf = list(facts.fns(unit="ws", crate=crate))
+        for fn in allf:
+            if fn.kind == "Closure" or fn.name != "batch_check" or not (fn.trait_impl or "").endswith("Valid") or "::tests::" in fn.id:
+                continue
+            scope = [fn] + [c for c in allf if c.kind == "Closure" and c.id.startswith(fn.id + "::{closure")]
+            hits = sorted({t["f"].get("name") for g in scope for _, t in g.calls() if t["f"].get("name") in TRUNCATING and ("iter" in (t["f"].get("path") or t["f"].get("trait") or "iter").lower() or "slice" in (t["f"].get("path") or "").lower())})
+            key = "%s|%s" % (crate, fn.id[-100:])
+            if hits:
+                rule.bad(key, "the batch is traversed through %s: elements behind the cut are never checked, so an invalid element later in the same batch is accepted" % "/".join(hits), fn.loc)
+            else:
+                rule.ok(key, "no truncating adaptor", fn.loc)
+
+
 def check_field(res, facts):
     rule = res.rule("R-FIELD", "Fp::deserialize_with_flags returns Ok only through from_bigint (range check) after the flag-extraction error arm", 1)
     for fn in facts.fns(unit="ws", crate="ark_ff"):
@@ -441,6 +463,38 @@ def check_field(res, facts):
             rule.bad(key, "an Ok path bypasses from_bigint / flag extraction", fn.loc)
         else:
             rule.ok(key, "%d Ok path(s) all pass flag extraction and from_bigint" % len(okp), fn.loc)
+
+
+def check_field_mode(res, facts, rule=None):
+    """Fp::deserialize_with_mode: containers read their elements with Validate::No and re-validate through Valid::check, which
+    is a no-op for Fp -- so the range check has to be unconditional: every path that can return Ok goes through
+    deserialize_with_flags (decided by R-FIELD), whatever `validate` says."""
+    rule = res.rule("R-FIELD.mode", "Fp::deserialize_with_mode reaches Ok only through deserialize_with_flags, for either value of `validate` (Valid::check of Fp is a no-op, containers rely on it)", 1)
+    for fn in facts.fns(unit="ws", crate="ark_ff"):
+        if fn.kind == "Closure" or fn.name != "deserialize_with_mode" or fn.self_head != "ark_ff::fields::models::fp::Fp":
+            continue
+        key = "ark_ff|Fp::deserialize_with_mode"
+        sites = [bb for bb, t in fn.calls() if t["f"].get("name") in ("deserialize_with_flags", "deserialize_with_mode", "deserialize_compressed", "deserialize_uncompressed")
+                 and "Fp" in (t["f"].get("self") or t["f"].get("path") or "Fp")]
+        if not sites:
+            rule.bad(key, "does not delegate to deserialize_with_flags (the range-checked reader)", fn.loc)
+            continue
+
+        def oracle(st, bb, t):
+            n = t["f"].get("name")
+            if n == "branch":
+                a = op_local(t["args"][0])
+                return st.env.get(a, PS.UNKNOWN)
+            if n == "from_residual":
+                return 1
+            return PS.UNKNOWN
+        ends = PS.explore(fn, oracle, max_states=4000)
+        okp = [st for st, e in ends if e == "return" and st.env.get(0, 0) == 0]
+        miss = [st for st in okp if not any(b in st.trace for b in sites)]
+        if miss:
+            rule.bad(key, "a path that may return Ok bypasses deserialize_with_flags (%d of %d paths): with Validate::No -- which is how Vec / array / tuple readers call it before Valid::batch_check -- integers >= p decode" % (len(miss), len(okp)), fn.loc)
+        else:
+            rule.ok(key, "%d Ok path(s) all pass the range-checked reader" % len(okp), fn.loc)
 
 
 def check_nopanic(res, facts):
@@ -571,6 +625,8 @@ def run(ctx, res):
     serflow.check_flow(rc, rv, facts, UNITS)
     check_points(res, facts)
     check_field(res, facts)
+    check_field_mode(res, facts)
+    check_valid_whole(res, facts)
     check_valid_impls(res, facts)
     check_nopanic(res, facts)
     check_nopanic_flags(res, facts)
